@@ -33,9 +33,13 @@ def build(ctx, decl_texts, order=None):
     lib, M = LC.parse_concrete(ctx, text)
     return lib, text
 
-def ident_sym(term, span_from):
-    """an Id whose spelling is an opaque symbolic name (lower-case == original: names range over a lower-case alphabet)"""
-    s = SymStr(term); s.lower = s
+def ident_sym(term, span_from, lower_term=None):
+    """an Id whose spelling is an opaque symbolic name.  Without lower_term the name is its own lower-case form (lower-case alphabet);
+    with lower_term the spelling as written (term) and its lower-case form (lower_term) are different strings: a re-spelling in another letter case"""
+    s = SymStr(term)
+    if lower_term is None: s.lower = s
+    else:
+        l = SymStr(lower_term); l.lower = l; s.lower = l
     return s
 
 def reach_cyclic(K, edges):
